@@ -7,6 +7,7 @@ Protocol vocabulary (treetable):
   first_key last_key first_value last_value   greater_than <k>   lesser_than <k>
   foreach_key foreach_value
   it_new  it_next  it_remove [noout=1]  it_drop
+  observe                    (new ... obs=sparse: content printed by `observe` only, CONVENTIONS Addendum 2)
 treeset: new/new_default/destroy, add <e>, remove <e> [noout=1], remove_all, contains <e>, size,
   first, last, greater_than <e>, lesser_than <e>, foreach, it_new/it_next/it_remove/it_drop.
 
@@ -37,7 +38,10 @@ def _key(cmpw):
 class _Hist:
     """builds one history while tracking the ideal content, so that operations stay inside the contract"""
 
-    def __init__(self, kind, cmpw=0, ctor=None):
+    def __init__(self, kind, cmpw=0, ctor=None, sparse=None):
+        """sparse: None, or an iterator of gaps (5..15): the session runs with obs=sparse and an
+        `observe` is inserted after every gap operations and before `destroy`"""
+        self.sparse = sparse
         self.kind = kind          # "table" | "set"
         self.cmpw = cmpw
         self.ops = [ctor or f"new cmp={cmpw}"]
@@ -133,7 +137,20 @@ class _Hist:
 
     def done(self):
         self.ops.append("destroy")
-        return self.ops
+        if self.sparse is None:
+            return self.ops
+        out = [self.ops[0] + " obs=sparse"]
+        gap = next(self.sparse)
+        for op in self.ops[1:-1]:
+            out.append(op)
+            gap -= 1
+            if gap <= 0:
+                out.append("observe")
+                gap = next(self.sparse)
+        if out[-1] != "observe":
+            out.append("observe")
+        out.append("destroy")
+        return out
 
 
 TABLE_Q = ["get", "contains_key", "greater_than", "lesser_than"]
@@ -179,6 +196,18 @@ class _TreeGen:
 
     # ------------------------------------------------------------------ small scope
     def small_scope(self, tier, focus=None):
+        out = self._small_scope(tier, focus)
+        # about a third of the histories in sparse observation mode (deterministic gaps 5..15)
+        for i in range(2, len(out), 3):
+            h = out[i]
+            if not h[0].startswith("new") or "fail=" in h[0] or len(h) < 3:
+                continue
+            hh = _Hist(self.kind, sparse=itertools.cycle([5 + (i + j) % 11 for j in range(7)]))
+            hh.ops = h[:-1]
+            out[i] = hh.done()
+        return out
+
+    def _small_scope(self, tier, focus=None):
         out = []
         allf = focus == "all"
         nmax = 5 if tier == "quick" else 6
@@ -301,7 +330,8 @@ class _TreeGen:
         ctor = None
         if allf and rng.random() < 0.05:
             ctor = f"new_default cmp={cmpw}"
-        h = _Hist(self.kind, cmpw, ctor)
+        sparse = iter(lambda: rng.randint(5, 15), None) if rng.random() < 1 / 3 else None
+        h = _Hist(self.kind, cmpw, ctor, sparse)
         krange = rng.choice([4, 8, 8, 20, 20, 60, 300, 1000])
         q1, q0 = self.q()
 
